@@ -10,6 +10,7 @@ import (
 	"crypto/rand"
 	"crypto/rsa"
 	"crypto/x509"
+	"encoding/base64"
 	"fmt"
 	"strings"
 	"testing"
@@ -169,7 +170,7 @@ func TestProp_RandomMutations(t *testing.T) {
 		i := rapid.IntRange(0, len(tgs)-1).Draw(t, "target")
 		tg := tgs[i]
 		b, s := tg.req.Bundle, tg.req.BundleSignature
-		kind := rapid.SampledFrom([]string{"multi-byte-bundle", "multi-byte-signature", "foreign-signature", "foreign-bundle", "resigned-by-other-key", "append-bundle", "append-signature", "repeat-signature", "prepend-signature", "empty-signature", "zero-signature", "splice"}).Draw(t, "kind")
+		kind := rapid.SampledFrom([]string{"multi-byte-bundle", "multi-byte-signature", "foreign-signature", "foreign-bundle", "resigned-by-other-key", "append-bundle", "append-signature", "repeat-signature", "prepend-signature", "empty-signature", "zero-signature", "splice", "signed-by-key-carried-elsewhere", "signed-by-key-carried-elsewhere"}).Draw(t, "kind")
 		m := &types.FetchNodeCredentialsRequest{Bundle: append([]byte(nil), b...), BundleSignature: append([]byte(nil), s...)}
 		p := 0
 		switch kind {
@@ -203,6 +204,31 @@ func TestProp_RandomMutations(t *testing.T) {
 			m.BundleSignature = nil
 		case "zero-signature":
 			m.BundleSignature = make([]byte, 64)
+		case "signed-by-key-carried-elsewhere":
+			// the sender names the victim's certificate key, carries its OWN key in
+			// another field of the same bundle, and signs the exact bundle bytes with it
+			var info types.FetchNodeCredentialsInfo
+			if err := proto.Unmarshal(b, &info); err != nil {
+				t.Fatalf("harness: %v", err)
+			}
+			pub, priv, _ := ed25519.GenerateKey(nil)
+			pkix, _ := x509.MarshalPKIXPublicKey(pub)
+			switch rapid.SampledFrom([]string{"previous-certificate-key", "previous-certificate-key", "encryption-key-bytes", "id-field"}).Draw(t, "where") {
+			case "previous-certificate-key":
+				info.PreviousCertificatePublicKeyPkix = pkix
+			case "encryption-key-bytes":
+				info.EncryptionPublicKeyBytes = []byte(pub)
+			case "id-field":
+				info.Id = base64.StdEncoding.EncodeToString(pkix)
+				if rapid.Bool().Draw(t, "alsoPrevious") {
+					info.PreviousCertificatePublicKeyPkix = pkix
+				}
+			}
+			var merr error
+			if m.Bundle, merr = proto.Marshal(&info); merr != nil {
+				t.Fatalf("harness: %v", merr)
+			}
+			m.BundleSignature = ed25519.Sign(priv, m.Bundle)
 		case "splice":
 			p = rapid.IntRange(1, len(b)-1).Draw(t, "cut")
 			ob := others[i].req.Bundle
